@@ -139,8 +139,8 @@ def _shard(args):
                     result["inconclusive"] = {"case": case, "why": f}
                     break
                 if f:
-                    result["failure"] = {"case": case, "failure": f, "shrunk": False,
-                                         "origin": "fixed"}
+                    result["failure"] = {"case": f.pop("replay_case", case), "failure": f,
+                                         "shrunk": False, "origin": "fixed"}
                     break
         # 2. generated search
         if result["failure"] is None and result["inconclusive"] is None and n_examples > 0:
@@ -163,7 +163,7 @@ def _shard(args):
                     raise _Inconclusive()
                 if f:
                     state["seen"] = True
-                    state["fail"] = {"case": case, "failure": f}
+                    state["fail"] = {"case": f.pop("replay_case", case), "failure": f}
                     raise _Fail()
 
             try:
